@@ -84,6 +84,21 @@ def prepare(ctx):
             vlib.build_harness(race=race)
             _stamp(key, hh)
     ctx.checker_cmds.append("cd harness && go build -tags verif -o ../.cache/harness .   # from /repo's working tree")
+    # thorough tier: independent re-check of the compiled development, once per state of the sources
+    if ctx.tier == "thorough" and not ctx.proof_broken:
+        ch = _src_hash([COQ])
+        rep = os.path.join(CACHE, "coqchk.txt")
+        if _stamp("coqchk") != ch or not os.path.exists(rep):
+            mods = ["ColumnV.props." + os.path.basename(f)[:-2] for f in sorted(glob.glob(os.path.join(COQ, "props", "C*.v")))]
+            p = vlib.sh(["timeout", "5400", "coqchk", "-silent", "-o", "-Q", COQ, "ColumnV"] + mods, cwd=COQ, check=False)
+            open(rep, "w").write(p.stdout[-6000:] + f"\nexit={p.returncode}\n")
+            _stamp("coqchk", ch)
+        txt = open(rep).read()
+        ctx.coqchk = txt[-1500:]
+        ctx.checker_cmds.append("coqchk -silent -o -Q coq ColumnV ColumnV.props.C01 ... C19   # independent checker, once per source state")
+        if "exit=0" not in txt:
+            ctx.proof_broken = ["coqchk"]
+            ctx.proof_log = txt[-2000:]
 
 
 # ---------------------------------------------------------------------------------------
@@ -245,7 +260,7 @@ def nontrivial(pid, feat):
         "C01": f("commits") >= 3 and (f("reuse") > 0 or f("multiblock") > 0 or merges > 0),
         "C02": f("aborts") >= 1 and f("commits") >= 1 and stm("insert", "insertkey", "upsert.insert") > 0,
         "C03": f("commits") >= 3 and (stm("delete", "range", "deleteall") > 0 or merges > 0),
-        "C04": stm("with", "without", "union", "withunion", "pred.signed", "pred.unsigned", "pred.streq", "pred.lengt", "pred.true") >= 1
+        "C04": stm("with", "without", "union", "withunion", "illtyped", "pred.signed", "pred.unsigned", "pred.streq", "pred.lengt", "pred.true") >= 1
                and stm("count", "range", "sum", "min", "max", "delete") >= 1,
         "C05": f("emitted") >= 2 and merges > 0,
         "C06": f("replicas") >= 1 and f("emitted") >= 2,
@@ -370,6 +385,8 @@ def finish(ctx, wall):
     cov["checker_cmd"] = " ; ".join(ctx.checker_cmds) or "none"
     cov["trusted_base"] = TRUSTED_BASE + cfg.get("trusted_extra", [])
     cov["rule"] = cfg.get("rule", "")
+    if getattr(ctx, "coqchk", None):
+        cov["coqchk"] = ctx.coqchk
     cov["other_disagreements"] = ctx.other[:20]
     cov["known_findings"] = ctx.known
     if not cov["samples"]:
@@ -675,7 +692,34 @@ def run_bitmap_engine(ctx, spec):
         ctx.violation("bitmap", o, data={"engine": "bitmap", "seed": ctx.seed})
 
 
-ENGINES = {"bitmap": run_bitmap_engine, "ttl": run_ttl_engine, "hist": run_hist_engine, "race": run_race_engine, "persist": run_persist_engine, "alloc": run_alloc_engine, "codec": run_codec_engine, "sched": run_sched_engine}
+def run_wire_engine(ctx, spec):
+    """Commit.WriteTo bytes vs WireCommit.v commit_enc; Commit.ReadFrom on prefixes vs commit_dec"""
+    n = spec["quick"] if ctx.tier == "quick" else spec["thorough"]
+    out = os.path.join(CACHE, "run", f"{ctx.pid}_wire")
+    if os.path.exists(out):
+        shutil.rmtree(out)
+    vlib.sh([os.path.join(CACHE, "harness"), "wire", "--seed", str(ctx.seed), "--n", str(n), "--out", out], timeout=1200)
+    s = json.load(open(os.path.join(out, "summary.json")))
+    bad = []
+    for sh_ in s["shards"]:
+        p = subprocess.run(["timeout", "1200", "coqc", "-Q", COQ, "ColumnV", sh_], cwd=out, stdout=subprocess.PIPE, stderr=subprocess.STDOUT, text=True)
+        m = re.search(r"M\s*=\s*(.*?)\n\s*:\s*list", p.stdout, re.S)
+        if p.returncode != 0 or not m:
+            ctx.violation("correspondence", "WireCommit.v could not be evaluated on the recorded commits: " + p.stdout[-1200:], found_input=False)
+            continue
+        bad += [(int(a), int(b)) for a, b in re.findall(r"\((\d+),\s*(\d+)\)", m.group(1))]
+    ctx.checker_cmds.append(f".cache/harness wire --seed {ctx.seed} --n {n}; coqc <shards>   # commit_enc vs Commit.WriteTo, commit_dec vs ReadFrom on prefixes")
+    cov = ctx.coverage
+    cov["evaluations"] += s["cases"] + s["cuts"]
+    cov["distinct_nontrivial"] += s["cases"]
+    cov.setdefault("engines", []).append({"engine": "wire", "commits": s["cases"], "prefix_verdicts": s["cuts"], "bytes": s["bytes"], "model_disagreements": len(bad)})
+    cov["samples"] += [{"engine": "wire", "case(commit,bytes,cuts)": x[:500]} for x in (s.get("samples") or [])[:1]]
+    what = {1: "Commit.WriteTo's bytes differ from commit_enc", 2: "commit_dec does not decode the bytes back to the commit", 3: "Commit.ReadFrom accepts/rejects a prefix differently from commit_dec"}
+    for case, tag in bad[:4]:
+        ctx.violation("wire", f"{what.get(tag, tag)} (generated commit {case}, seed {ctx.seed})", data={"engine": "wire", "seed": ctx.seed, "case": case, "tag": tag})
+
+
+ENGINES = {"wire": run_wire_engine, "bitmap": run_bitmap_engine, "ttl": run_ttl_engine, "hist": run_hist_engine, "race": run_race_engine, "persist": run_persist_engine, "alloc": run_alloc_engine, "codec": run_codec_engine, "sched": run_sched_engine}
 S = lambda scen, q, t, **kw: dict(engine="sched", scenarios=scen, quick=q, thorough=t, **kw)
 
 H = lambda profile, q, t, **kw: dict(engine="hist", profile=profile, quick=q, thorough=t, **kw)
@@ -689,11 +733,11 @@ PROPS = {
                 rule="histories with indexes created/dropped mid-history, replicas and restores; non-trivial = >=3 commits with deletes or merges"),
     "C04": dict(engines=[H("filter", 80, 1000), dict(engine="bitmap", quick=400, thorough=6000)],
                 rule="histories with filter chains and terminals; non-trivial = a chain operator and a terminal in the history"),
-    "C05": dict(engines=[dict(engine="codec", quick=300, thorough=6000), H("mix", 30, 300)],
+    "C05": dict(engines=[dict(engine="codec", quick=300, thorough=6000), dict(engine="wire", quick=80, thorough=800), H("mix", 30, 300)],
                 rule="random op sequences over {delete, insert, put, merge} x {0,2,4,8-byte, bytes} x offset moves, written to the real buffer; every case is distinct by construction (independent PRNG streams) and non-trivial (>=1 op); the model must produce the same bytes"),
-    "C06": dict(engines=[H("replica", 60, 800), S("rows", 150, 3000, dfs_thorough=6000)],
+    "C06": dict(engines=[H("replica", 60, 800), S("rows,keys", 150, 3000, dfs_thorough=6000)],
                 rule="sequential: histories replayed on a second collection (channel clones or a serialized log file), replica dump compared; schedules: 2-3 writers over 1-2 blocks (random + exhaustive DFS in the thorough tier), replica fed in logger order; distinct = distinct schedule traces"),
-    "C08": dict(engines=[S("snap", 700, 6000, dfs_quick=300, dfs_thorough=8000)],
+    "C08": dict(engines=[S("snap", 700, 6000, dfs_quick=300, dfs_thorough=8000), H("restore", 30, 300)],
                 rule="a snapshot thread beside 2-3 committing writers (merges and overwrites, one or two blocks) at every yield point of the commit and snapshot protocols; the restored rows must be a prefix per block of the latch order containing every commit acknowledged before the snapshot began"),
     "C09": dict(engines=[S("rows", 250, 4000, dfs_quick=300, dfs_thorough=8000)],
                 rule="2-3 writers merging (additive and order-sensitive v*3+d) into overlapping rows of 1-2 blocks with readers; final value = fold of the committed deltas in latch order"),
@@ -705,7 +749,7 @@ PROPS = {
                 rule="insert/delete heavy histories; non-trivial = >=3 inserts with a delete or offset reuse"),
     "C12": dict(engines=[H("keys", 70, 900)],
                 rule="keyed histories over a 6-key alphabet; non-trivial = >=3 key operations"),
-    "C13": dict(engines=[dict(engine="persist", kind="trunc", quick=8, thorough=40)],
+    "C13": dict(engines=[dict(engine="persist", kind="trunc", quick=8, thorough=40), dict(engine="wire", quick=120, thorough=1500)],
                 level_text="theorems about the prefix-safe parsers and the log / restore prefix property (Wire.v, every prefix, no bound) + fault enumeration on the implementation: every sampled prefix (every byte in the thorough tier) of real snapshot and log files is restored; s2 framing is trusted",
                 rule="snapshot files (random history, 0-3 transactions committed during the snapshot) and commit-log files cut at: the first 24 bytes, the state/log boundary +-6, the last 200 bytes, 120 random offsets (every offset in the thorough tier); every cut is a distinct case"),
     "C14": dict(engines=[dict(engine="persist", kind="fault", quick=3, thorough=9)],
